@@ -148,7 +148,7 @@ private theorem stripFH_fileHeader (m : AbstractModel) : stripFH (fileHeader m) 
       materialCount := m.fileMaterialCount,
       vertexOffsets := Arr3.rep 0, indexOffsets := Arr3.rep 0,
       vertexBufferSize := Arr3.rep 0, indexBufferSize := Arr3.rep 0,
-      lodCount := m.lodCount,
+      lodCount := 0,
       indexBufferStreamingEnabled := m.indexBufferStreamingEnabled,
       hasEdgeGeometry := m.hasEdgeGeometry } := rfl
 
